@@ -315,12 +315,35 @@ func runC19(e *Engine, r *Report, tier string) {
 					continue
 				}
 				if ci.Op == "!=" && ci.Y != nil {
+					isNative := false
 					if s, ok := constString(ci.Y); ok && s != "" {
-						okDenom = true
+						isNative = true
 					}
 					if u, ok := ci.Y.(*ssa.UnOp); ok {
 						if _, ok := u.X.(*ssa.Global); ok {
-							okDenom = true
+							isNative = true
+						}
+					}
+					// what is compared with the native denom is the denom of the very coin that is converted (the coin the
+					// transfer module credited), not some other rendering of the packet's denomination
+					if isNative {
+						subj := ci.X
+						if gc, ok := stripConv(subj).(*ssa.Call); ok && (callName(gc) == "GetDenom") {
+							if as := callArgs(gc); len(as) == 1 {
+								subj = nil
+								for _, a := range nonCtxArgs(conv) {
+									if strings.HasSuffix(a.Type().String(), "types.Coin") && coinTermOf(a).Denom == coinTermOf(as[0]).Denom {
+										okDenom = true
+									}
+								}
+							}
+						}
+						if subj != nil {
+							for _, a := range nonCtxArgs(conv) {
+								if strings.HasSuffix(a.Type().String(), "types.Coin") && (coinTermOf(a).Denom == vkey(subj, 0) || coinTermOf(a).Denom == fkey(subj, "", 0)) {
+									okDenom = true
+								}
+							}
 						}
 					}
 				}
@@ -360,7 +383,7 @@ func runC19(e *Engine, r *Report, tier string) {
 					okHex = any && all
 				}
 			}
-			r.Check(okDenom, "R3", e.FnKey(fn)+" denom-guard", e.InstrPos(conv), "conversion only for non-FX denoms", "inbound conversion is not restricted to non-native denoms")
+			r.Check(okDenom, "R3", e.FnKey(fn)+" denom-guard", e.InstrPos(conv), "conversion for every credited coin whose own denom is not FX", "the test that exempts the native coin from the conversion is not made on the denom of the coin that is converted (or is missing): a foreign voucher that merely carries the name FX in its trace stays an unconverted bank coin behind a hex address, with a success acknowledgement")
 			r.Check(okHex, "R3", e.FnKey(fn)+" hex-guard", e.InstrPos(conv), "non-hex receiver -> error before conversion", "a bech32 receiver's coins are converted to ERC-20 (or the hex test no longer fails the packet)")
 			ok, _ := errorHandled(conv)
 			amt := false
